@@ -23,7 +23,7 @@ RULE = ("cases = (document, path[, result]) triples; documents enumerated exhaus
         "length 3 in dot and bracket rendering; results fresh / the input itself / a sub-tree of the input. "
         "Non-trivial = path depth >= 2 or the result aliases the input; distinct by canonical JSON of the case.")
 
-KEYS = ["a", "b c", "k-1"]          # random part
+KEYS = ["a", "b c", "k-1", "arn:aws:x", "a:b"]          # random part (keys with a colon - ARNs are common keys - are written in bracket notation)
 XKEYS = ["a", "b c"]                # exhaustive part
 LEAVES = [0, "a", None, True, [], {}]
 STEPS = ["a", "b c", 0, 1]          # exhaustive part
